@@ -14,6 +14,10 @@ from ..extract import HEADER, ExtractError, Tr, ast_dump, body_of, kids, prop_de
 
 NAME = "Http"
 
+# Registry for vlib/gen/httpskel.py (statement skeletons): clang node id of a condition -> the generated guard made
+# from it.  Filled by generate() (same cached AST dump as httpskel.py reads); the output does not depend on it.
+SITES = {}
+
 
 def lean_bytes(s):
     return "[" + ", ".join(str(b) for b in s.encode()) + "]"
@@ -194,6 +198,7 @@ def byte_pred(n, param):
 
 
 def generate():
+    SITES.clear()
     docs = ast_dump("muduo/net/http/HttpContext.cc", "muduo::net::Http")
     req = record(docs, "HttpRequest")
     ctxr = record(docs, "HttpContext")
@@ -335,6 +340,7 @@ def generate():
     t = Tr({"space": "spaceOff", "end": "endOff", "question": "questionOff", "start": "0",
             "find_if(start,space,isControl)": "ctlOff"})
     guard = unparen(t.expr(kids(s_if)[0]))
+    SITES[kids(s_if)[0].get("id")] = "targetAccepted"
     if not {"space", "end", "question", "start", "find_if(start,space,isControl)"} <= t.used:
         raise ExtractError("processRequestLine: the target test no longer uses %s" % sorted(
             {"space", "end", "question", "start", "find_if(start,space,isControl)"} - t.used))
